@@ -234,8 +234,10 @@ class Registry:
             x, y = z3.Const("sc_x", S.Atom), z3.Const("sc_y", S.Atom)
             rest = S.func("str_strip_prefix", S.Atom, S.Atom, S.Atom)
             head = S.func("str_strip_suffix", S.Atom, S.Atom, S.Atom)
-            st.assume(z3.ForAll([x, y], z3.And(rest(cat(x, y), x) == y, head(cat(x, y), y) == x, cat(x, y) != S.NONE), patterns=[cat(x, y)]))
+            # (None is an element of the Atom sort: the `is a string` conclusion is only for string operands -- stated unconditionally it contradicts the identity axiom at x = None)
+            st.assume(z3.ForAll([x, y], z3.And(rest(cat(x, y), x) == y, head(cat(x, y), y) == x, z3.Implies(z3.And(x != S.NONE, y != S.NONE), cat(x, y) != S.NONE)), patterns=[cat(x, y)]))
             st.assume(z3.ForAll([x], z3.And(cat(x, empty) == x, cat(empty, x) == x), patterns=[cat(x, empty), cat(empty, x)]))
+            st.assume(z3.ForAll([x, y], z3.Implies(cat(x, y) == empty, z3.And(x == empty, y == empty)), patterns=[cat(x, y)]))  # a concatenation is empty only if both parts are
             self.note("string + is an uninterpreted concatenation: cancellative on both sides, '' is its identity")
         return VScalar(r, T.atom)
 
